@@ -465,7 +465,7 @@ func runC07Partition(work string, part int, transport string, casesFile string, 
 		progress := filepath.Join(work, fmt.Sprintf("c07-%s-p%d-g%d.progress", transport, part, gen))
 		outFile := filepath.Join(work, fmt.Sprintf("c07-%s-p%d-g%d.out", transport, part, gen))
 		cmd := exec.Command(os.Args[0], "c07child", "quick", pf, "0", fmt.Sprint(len(sub)), progress, transport)
-		cmd.Env = append(os.Environ(), "GORACE=halt_on_error=0 log_path="+filepath.Join(work, fmt.Sprintf("race-c07-%s-p%d-g%d", transport, part, gen)))
+		cmd.Env = append(os.Environ(), "GORACE=halt_on_error=0 exitcode=0 log_path="+filepath.Join(work, fmt.Sprintf("race-c07-%s-p%d-g%d", transport, part, gen)))
 		lastN, lastT := 0, time.Now()
 		res := child.Run(cmd, outFile, 40*time.Minute, func() bool {
 			n := len(readProgress(progress))
@@ -565,7 +565,7 @@ func c07Single(work, tag, transport string, cs *c07Case) bool {
 	_ = os.WriteFile(pf, b, 0o644)
 	progress := filepath.Join(work, "c07-single-"+tag+".progress")
 	cmd := exec.Command(os.Args[0], "c07child", "quick", pf, "0", "1", progress, transport)
-	cmd.Env = append(os.Environ(), "C07_DWELL_MS=700", "GORACE=halt_on_error=0 log_path="+filepath.Join(work, "race-c07-single-"+tag))
+	cmd.Env = append(os.Environ(), "C07_DWELL_MS=700", "GORACE=halt_on_error=0 exitcode=0 log_path="+filepath.Join(work, "race-c07-single-"+tag))
 	res := child.Run(cmd, filepath.Join(work, "c07-single-"+tag+".out"), 5*time.Minute, nil)
 	lines := readProgress(progress)
 	done := false
